@@ -41,7 +41,7 @@ ASSUMPTIONS = list(c19.ASSUMPTIONS) + [
     "DimArray blocks assigned on disk carry all of the variable's dimensions (documented usage)",
 ]
 MANDATORY = ["read:variable-not-on-the-file's-first-dimension", "read:label", "read:position", "read:tol", "read:dataset", "read:absent->IndexError", "read:str-axis", "read:0d", "read:mask", "read:slice",
-             "write:label", "write:position", "write:ndarray", "write:dimarray", "write:reopen", "unlimited:append-scalar", "unlimited:append-slice",
+             "write:replace-variable", "write:label", "write:position", "write:ndarray", "write:dimarray", "write:reopen", "unlimited:append-scalar", "unlimited:append-slice",
              "unlimited:append-list", "unlimited:second-variable", "multi:stack", "multi:concatenate", "multi:align", "multi:keys"]
 
 
@@ -116,7 +116,7 @@ def write_case(draw):
     spec = fs["vars"][vi][1]
     steps = []
     for _ in range(draw(st.integers(1, 6))):
-        kind = draw(st.sampled_from(["label", "label", "position", "position", "reopen", "read"]))
+        kind = draw(st.sampled_from(["label", "label", "position", "position", "reopen", "read", "replace"]))
         if kind in ("label", "position"):
             idx = []
             for labs in spec["labels"]:
@@ -143,6 +143,8 @@ def write_case(draw):
                         idx.append({"k": "full"})
             steps.append({"k": kind, "idx": idx, "rhs": draw(st.sampled_from(["scalar", "ndarray", "dimarray"] + (["dimarray-other-labels"] if kind == "position" else []))),
                           "base": draw(st.integers(0, 9))})
+        elif kind == "replace":
+            steps.append({"k": kind, "how": draw(st.sampled_from(["handle", "handle", "write_nc"])), "base": draw(st.integers(0, 9))})
         else:
             steps.append({"k": kind})
     return {"mode": "write", "file": fs, "var": vi, "steps": steps}
@@ -485,6 +487,20 @@ def run_write(case, tmp):
                 h.close()
                 h = da.open_nc(path, "a")
                 cl.add("write:reopen")
+            elif k == "replace":
+                # the whole variable assigned again under its existing name (same axes, other values): h[name] = array, or write_nc(mode='a')
+                new_arr = c19.build_var(dict(spec, base=700 + 10 * si + step["base"], hist={"mode": "none"}))
+                if spec.get("nan"):
+                    new_arr = c19.build_var(dict(spec, base=700 + 10 * si + step["base"], hist={"mode": "none"}, nan=spec["nan"][:1]))
+                if step["how"] == "handle":
+                    lib(lambda: h.__setitem__(name, new_arr), what=what + " h[name] = array of the same axes", sig=sig)
+                else:
+                    h.close()
+                    lib(lambda: new_arr.write_nc(path, name, mode="a"), what=what + " array.write_nc(f, name, mode='a') over the existing variable", sig=sig)
+                    h = da.open_nc(path, "a")
+                shadow = da.DimArray(np.array(new_arr.values, copy=True), axes=[ax.copy() for ax in shadow.axes])
+                wrote = True
+                cl.add("write:replace-variable")
             elif k in ("label", "position"):
                 descs = step["idx"]
                 idx = tuple(im.index_object(d) for d in descs)
